@@ -688,8 +688,9 @@ def run(tier, seed):
     return cov, violations
 
 OPEN_ITEMS = [
-    "C09_block_elimination_least: the block (non-commutative) version of C09_elimination_least and the refinement multi_solve_model -> block elimination are not proved; every run compares multi_solve_model with the dense solve_model on the assembled system (code 13) and judges the implementation output with the dense oracles",
-    "C09_bool_series_exact_upto3 (bounded in-kernel check, n <= 3) is kept beside the unbounded C09_least_is_series_bool_exact",
+    "refinement multi_solve_model (list-of-blocks LU + back-substitution with presence tests, a[x,z]a[z,z]* computed by a transposed solve) -> block elimination belim of C09_block_elimination_least / C09_matrix_block_elimination_least is not proved (needs (A^T)* = (A*)^T); every run checks in Coq that multi_solve_model equals the dense solve_model of the assembled system (verdict 13 otherwise) and judges the implementation output with the dense oracles",
+    "bool_series_exact_upto3 (bounded in-kernel check, n <= 3, in Proofs/SolveCarriers.v) is kept beside the unbounded C09_least_is_series_bool_exact",
+    "the generic theorems take the law records sr_ring/sr_ordered/sr_star of ereal, trop, bool as premises (proved under C08, Proofs/SemiringLaws.v); composing them is a one-line instantiation not done here",
     "tier B: PatternedTensor.solve's solution-axis iteration (terminates, covers the support) is not modelled; its output is judged densely",
 ]
 
@@ -730,7 +731,7 @@ def replay(path):
 
 MANIFEST = dict(
     level="proof",
-    text="Coq theorems, generic over an abstract ordered star-semiring (law records as premises): recursive elimination of the unknowns in ANY order yields a solution of x = A x + b (from star-unfold alone) that is below every pre-solution (from star-induction); the in-place Gauss-Jordan loop of Semiring.solve_thunks (modelled statement by statement on lists, vector and matrix right-hand sides) computes the same vector; the partial sums of sum A^k b are below it; soundness/completeness of the executable oracles is_solution_b, series_le_b, cert_le_b, is_least_solution_b; Viterbi: the star as coded (star(0)=inf) still yields a solution, a refutation witness for leastness, and leastness under the guard 'no pivot is exactly 0'. Tied to /repo by running model and implementation on the same exact-grid inputs (dense n <= 4, 4 semirings; block systems with every presence pattern of 2 blocks and sampled 3/4 blocks, transpose, recorded elimination order; PatternedTensor.solve on sparsity patterns) and judging every implementation output with the extracted oracles; arguments are byte-snapshotted.",
-    note="Trusted: Coq kernel + vm_compute, extraction cross-checked on a sample, the Python harness (float <-> rational conversion, math.log/exp for the Log reading, 1e-9 tolerance), semiring law records of the carriers (proved under C08). Open: block-level elimination theorem and refinement of multi_solve_model, LU-path theorem, unbounded bool series equality. Known findings on the unchanged tree: F2 (Viterbi star at 0), F18 (PatternedTensor.solve AssertionError on disjoint support), and Real/Log returning huge finite numbers for divergent systems whose pivots are not float-exact.",
+    text="Coq theorems, generic over an abstract ordered star-semiring (law records as premises): recursive elimination of the unknowns in ANY order yields a solution of x = A x + b (from star-unfold alone) that is below every pre-solution (from star-induction); the in-place Gauss-Jordan loop of Semiring.solve_thunks (modelled statement by statement on lists, vector and matrix right-hand sides) computes the same vector; the partial sums of sum A^k b are below it, with equality at N = dim in bool; the block version over an abstract ordered star-semimodule (non-commutative coefficients) and its instance by N x N matrices with the dense solver on the diagonal blocks; RealSemiring's LU fast path agrees with the generic routine when its oracle returns the unique rational solution; multi_mv equals the dense product of the assembled blocks (also transposed); the model of _order_nonterminals returns a duplicate-free enumeration of the keys for every set-iteration order; soundness/completeness of the executable oracles is_solution_b, series_le_b, cert_le_b, is_least_solution_b; Viterbi (finding F2): the star as coded (star(0)=inf) still yields a solution, a refutation witness for leastness, and leastness under the guard 'no pivot is exactly 0'. Tied to /repo by running model and implementation on the same exact-grid inputs (dense n <= 4, 4 semirings; block systems with every presence pattern of 2 blocks and sampled 3/4 blocks, transpose, recorded elimination order; PatternedTensor.solve on typed sparsity patterns) and judging every implementation output with the extracted oracles; arguments are byte-snapshotted.",
+    note="Trusted: Coq kernel + vm_compute, extraction cross-checked in the kernel on a sample and on every non-zero verdict, the Python harness (float <-> rational conversion, math.log/exp for the Log reading, 1e-9 tolerance), semiring law records of the carriers (premises; proved under C08). Open: refinement of multi_solve_model to the block elimination (checked at run time against the dense model instead); PatternedTensor.solve's axis iteration (tier B). Known findings: F2 (Viterbi star at 0; the harness probes star(0.) and runs the model with the star the code has), F18 (PatternedTensor.solve AssertionError on disjoint support), F21 (new: Real/Log return huge finite numbers for divergent systems whose pivots are not float-exact).",
     technique="Coq proof (model + theorems) + model/implementation correspondence with verified-spec oracles",
     design_ref="DESIGN.md section 6, C09; Appendix A.5, A.7; Appendix C (C09)")
